@@ -64,6 +64,7 @@ var scalars = []scalar{
 	{"vt.MyUint8", []string{"200"}},
 	{"$L.Local", []string{"3", "0"}},
 	{"vt2.Other", []string{"9"}},
+	{"cvt.C", []string{"4"}},
 }
 
 func conv(t, v string) string { return t + "(" + v + ")" }
@@ -157,6 +158,15 @@ func values(thorough bool) []Val {
 	add("struct {\n\tA int\n\tB string\n}", "struct {\n\tA int\n\tB string\n}{}")
 	add("[]struct{ A int }", "[]struct{ A int }{{A: 1}, {}}")
 	add("vt2.Pair", "vt2.Pair{Left: vt.Inner{X: 1}, Right: vt2.Other(2)}")
+	add("cvt.Box", "cvt.Box{In: vt.Inner{X: 1}, C: cvt.C(2)}")
+	add("map[cvt.C]vt.MyInt", "map[cvt.C]vt.MyInt{cvt.C(1): vt.MyInt(2)}")
+	add("[]cvt.Box", "[]cvt.Box{{}, {C: 3}}")
+	add("[2][2]int", "[2][2]int{{1, 2}, {3, 4}}")
+	add("map[vt.Key][]vt.Inner", "map[vt.Key][]vt.Inner{vt.Key{A: 1}: {{X: 1}, {}}}")
+	add("[]vt.Emb", "[]vt.Emb{{Inner: vt.Inner{Y: \"e\"}}, {}}")
+	add("vt.Deep", "vt.Deep{P: &vt.S{G: &vt.Inner{X: 1}, E: ptr(2)}, L: []*vt.Inner{{X: 1}, nil, {}}, M: map[string]*vt.S{\"a\": {A: 1}, \"z\": nil}}")
+	add("vt.Deep", "vt.Deep{}")
+	add("*vt.Deep", "ptr(vt.Deep{L: []*vt.Inner{}})")
 	// depth 2 containers
 	for _, e := range elems {
 		if !thorough && e.typ != "int" && e.typ != "vt.Inner" && e.typ != "vt.MyString" {
@@ -216,6 +226,12 @@ type Emb struct {
 	Inner
 	Z int
 }
+
+type Deep struct {
+	P *S
+	L []*Inner
+	M map[string]*S
+}
 `
 
 const vt2Source = `package vt2
@@ -227,6 +243,18 @@ type Other int
 type Pair struct {
 	Left  vt.Inner
 	Right Other
+}
+`
+
+const cvtSource = `package vt
+
+import real "x.io/test/vt"
+
+type C int
+
+type Box struct {
+	In real.Inner
+	C  C
 }
 `
 
@@ -280,7 +308,7 @@ func checkVals(c *core.Ctx, vals []Val) {
 	sum, _ := os.ReadFile(core.RepoDir() + "/go.sum")
 	// program A
 	var a strings.Builder
-	a.WriteString("package main\n\nimport (\n\t\"bytes\"\n\t\"encoding/json\"\n\t\"fmt\"\n\t\"os\"\n\n\t\"github.com/octohelm/gengo/pkg/gengo\"\n\t\"github.com/octohelm/gengo/pkg/gengo/snippet\"\n\t\"github.com/octohelm/gengo/pkg/namer\"\n\t\"" + modPath + "/tgt\"\n\t\"" + modPath + "/vt\"\n\t\"" + modPath + "/vt2\"\n)\n\nvar _ tgt.Local\nvar _ vt.MyInt\nvar _ vt2.Other\n\nfunc ptr[T any](v T) *T { return &v }\n\nvar values = []any{\n")
+	a.WriteString("package main\n\nimport (\n\t\"bytes\"\n\t\"encoding/json\"\n\t\"fmt\"\n\t\"os\"\n\n\t\"github.com/octohelm/gengo/pkg/gengo\"\n\t\"github.com/octohelm/gengo/pkg/gengo/snippet\"\n\t\"github.com/octohelm/gengo/pkg/namer\"\n\t\"" + modPath + "/tgt\"\n\t\"" + modPath + "/vt\"\n\t\"" + modPath + "/vt2\"\n\tcvt \"" + modPath + "/clash/vt\"\n)\n\nvar _ tgt.Local\nvar _ vt.MyInt\nvar _ vt2.Other\nvar _ cvt.C\n\nfunc ptr[T any](v T) *T { return &v }\n\nvar values = []any{\n")
 	for _, v := range vals {
 		a.WriteString("\t" + q(v.Expr, "tgt.") + ",\n")
 	}
@@ -329,7 +357,7 @@ func main() {
 `)
 	t := pipe.Tree{
 		"go.mod": gomod, "go.sum": string(sum),
-		"vt/vt.go": vtSource, "vt2/vt2.go": vt2Source, "tgt/tgt.go": tgtSource,
+		"vt/vt.go": vtSource, "vt2/vt2.go": vt2Source, "clash/vt/vt.go": cvtSource, "tgt/tgt.go": tgtSource,
 		"verifkit/kit.go":    gocheck.VerifKit,
 		"cmd/render/main.go": a.String(),
 	}
@@ -421,6 +449,8 @@ func main() {
 			uses += "var _ " + n + ".MyInt\n"
 		case modPath + "/vt2":
 			uses += "var _ " + n + ".Other\n"
+		case modPath + "/clash/vt":
+			uses += "var _ " + n + ".C\n"
 		default:
 			c.Fail("", Case{}, "rendering registered the unexpected import %q", p)
 			return
@@ -523,24 +553,25 @@ func wantExpr(v Val, imports map[string]string) string {
 }
 
 func rewriteQual(s string, imports map[string]string) string {
-	// the model writes vt./vt2.; the file must use the names the tracker registered (they are
-	// only registered when some rendering referred to them, otherwise fall back to blank aliases)
-	n1, ok1 := imports[modPath+"/vt"]
-	n2, ok2 := imports[modPath+"/vt2"]
-	if !ok1 {
-		n1 = "vt"
+	// the model writes vt. / vt2. / cvt.; the file must use the names the tracker registered (a
+	// package nothing referred to keeps the model's name: then nothing in the file uses it either)
+	name := func(path, dflt string) string {
+		if n, ok := imports[path]; ok {
+			return n
+		}
+		return dflt
 	}
-	if !ok2 {
-		n2 = "vt2"
-	}
+	n1, n2, n3 := name(modPath+"/vt", "vt"), name(modPath+"/vt2", "vt2"), name(modPath+"/clash/vt", "cvt")
+	s = strings.ReplaceAll(s, "cvt.", "\x01")
 	s = strings.ReplaceAll(s, "vt2.", "\x00")
 	s = strings.ReplaceAll(s, "vt.", n1+".")
 	s = strings.ReplaceAll(s, "\x00", n2+".")
+	s = strings.ReplaceAll(s, "\x01", n3+".")
 	return s
 }
 
 func typeClass(t string) string {
-	r := strings.NewReplacer("vt2.", "", "vt.", "", "$L.", "")
+	r := strings.NewReplacer("cvt.", "", "vt2.", "", "vt.", "", "$L.", "")
 	t = r.Replace(t)
 	if len(t) > 24 {
 		t = t[:24]
